@@ -44,7 +44,7 @@ func isRpCall(in ssa.Instruction, names ...string) bool {
 }
 
 func checkC04(w *World, r *Report) {
-	r.Decides = "C04 is decided in its structural part only: (a) data and applied index travel in one batch (the obligations C01.a-c); (b) Sync flushes the DB and Close flushes before closing it; (c) the publish protocol of the 'current' file: temp file created, written and synced before the save step succeeds; rename then directory sync, whose result is returned, in the replace step; the data directory is created and its parent synced; no error of a non-deferred Create/Write/Sync/Rename is dropped; (d) every publication of a directory name is preceded by the creation of that directory; (e) snapshot install order in each recoverer: received files synced, new DB built, save name, replace 'current', swap, close the value returned by the swap, cleanup; the stop edge does not reach the replace; (f) cleanup removes only entries that differ from 'current' and from the directory it names, whose name is returned only when its checksum matches; (g) Open returns the index read from the DB it opened. Also: a created directory's parent is synced; nothing tears the new DB down once published; every file the package creates is complete when it is synced (h)."
+	r.Decides = "C04 is decided in its structural part only: (a) data and applied index travel in one batch (the obligations C01.a-c); (b) Sync flushes the DB and Close flushes before closing it; (c) the publish protocol of the 'current' file: temp file created, written and synced before the save step succeeds; rename then directory sync, whose result is returned, in the replace step; the data directory is created and its parent synced; no error of a non-deferred Create/Write/Sync/Rename is dropped; (d) every publication of a directory name is preceded by the creation of that directory; (e) snapshot install order in each recoverer: received files synced, new DB built, save name, replace 'current', swap, close the value returned by the swap, cleanup; the stop edge does not reach the replace; (f) cleanup removes only entries that differ from 'current' and from the directory it names, whose name is returned only when its checksum matches; (g) Open returns the index read from the DB it opened. Also: a created directory's parent is synced; nothing tears the new DB down once published; every file the package creates is complete when it is synced (h); the first-run verdict is true only when the `current` file cannot be stat-ed (i)."
 	r.NotDecided = []string{"which crash points exist between two steps and what is durable at each (the fault model itself)", "Pebble's flush/manifest atomicity with the WAL disabled", "repeated crashes"}
 	r.Assume = []string{"vfs semantics: file data durable after File.Sync, directory entries after a Sync on the directory", "pebble.Open creates the DB directory and syncs its parent entry; DB.Ingest is durable when it returns"}
 	a := w.FsmAnchors()
@@ -63,6 +63,7 @@ func checkC04(w *World, r *Report) {
 	c04Cleanup(w, r)
 	c04ReopenIndex(w, r, a)
 	c04FileWrites(w, r, "C04.h", "h-created-files-complete-when-synced")
+	c04FirstRun(w, r)
 }
 
 func c04Durability(w *World, r *Report, a *FsmA) {
